@@ -274,6 +274,117 @@ def c16_queries(fns, K, with_clone, log):
 
 
 # ------------------------------------------------------------------------------------------------
+def native(binname, args, timeout=600):
+    """runs a reproducer / oracle from replay/native against the real build of /repo's working tree"""
+    env = dict(os.environ)
+    env.setdefault("VERIF_REPO", "/repo")
+    p = subprocess.run([os.path.join(VERIF, "replay", "native", "run.sh"), binname] + [str(a) for a in args],
+                       capture_output=True, text=True, timeout=timeout, env=env)
+    return p.returncode, p.stdout + p.stderr
+
+
+def validate_translator(fns, log):
+    """Single-thread semantics of every encoded AtomicReloadId / ReloadId operation, on boundary vectors,
+    must equal the natively compiled function (Serval-style validation of the encoder)."""
+    MAXV = (1 << 64) - 1
+    vectors = [(0, 0), (0, 1), (1, 0), (5, 7), (7, 5), (7, 7), (MAXV, 0), (0, MAXV), (MAXV, MAXV), (MAXV - 1, MAXV)]
+    ops = {"update": "AtomicReloadId::update", "fetch_max": "AtomicReloadId::fetch_max", "swap": "AtomicReloadId::swap",
+           "store": "AtomicReloadId::store", "load": "AtomicReloadId::load"}
+    args = []
+    for op in ops:
+        for (i, v) in vectors:
+            args += [op, i, v]
+    for (i, v) in vectors:
+        args += ["plain_update", i, v]
+    t0 = time.time()
+    rc, out = native("e2_oracle", args)
+    nat = {}
+    for m in re.finditer(r"^(\w+) (\d+) (\d+) -> (\S+) (\d+)$", out, flags=re.M):
+        nat[(m.group(1), int(m.group(2)), int(m.group(3)))] = (m.group(4), int(m.group(5)))
+    if len(nat) != len(args) // 3:
+        return [{"query": "E2:translator_validation", "engine": "E2-mir2smt", "outcome": "inconclusive", "why": "native oracle did not run: " + out[-300:],
+                 "wall_s": round(time.time() - t0, 2), "evaluations": 0, "distinct_nontrivial": 0}]
+    mism, n = [], 0
+    for op, key in ops.items():
+        for (i, v) in vectors:
+            sc = Scenario("tv")
+            sc.declare("init"); sc.declare("v0")
+            sc.cells["a"] = "init"
+            ex = Exec(fns, 0, {"A": Struct({0: AtomicCell("a")})})
+            a = [Ref("A")] + ([Struct({0: BV("v0")})] if op != "load" else [])
+            ps = paths_of(ex, key, a)
+            sc.threads.append([p for (_, p, _) in ps])
+            rets = [r for (_, _, r) in ps]
+            lines, S = M.encode(sc, [])
+            lines += [f"(assert (= init (_ bv{i} 64)))", f"(assert (= v0 (_ bv{v} 64)))"]
+            rt = rets[0]
+            if isinstance(rt, BoolV):
+                lines += ["(declare-const retb Bool)", f"(assert (= retb {ite_over_sel(0, [r.t for r in rets], 'false')}))"]
+                want = ["retb", f"m_a_{S}"]
+            elif isinstance(rt, Struct):
+                lines += ["(declare-const retv (_ BitVec 64))", f"(assert (= retv {ite_over_sel(0, [r.fields[0].t for r in rets], 'init')}))"]
+                want = ["retv", f"m_a_{S}"]
+            else:
+                want = [f"m_a_{S}"]
+            verdict, model, dt, raw = M.solve(lines, want_model_vars=want)
+            n += 1
+            def num(x):
+                if x is None: return None
+                if x.startswith("#x"): return int(x[2:], 16)
+                return x
+            got_ret = num(model.get("retb", model.get("retv")))
+            got_fin = num(model.get(f"m_a_{S}"))
+            exp_ret, exp_fin = nat[(op, i, v)]
+            exp_ret_n = exp_ret if exp_ret in ("true", "false", "unit") else int(exp_ret)
+            if verdict != "sat" or got_fin != exp_fin or (exp_ret_n != "unit" and got_ret != exp_ret_n):
+                mism.append({"op": op, "init": i, "v": v, "encoding": [got_ret, got_fin], "native": [exp_ret_n, exp_fin], "verdict": verdict})
+    # ReloadId::update (local, no shared memory): executed symbolically with a local object
+    for (i, v) in vectors:
+        ex = Exec(fns, 0, {})
+        L = ("L", 0)
+        res = [(m, r) for (m, p, r) in ex.run("ReloadId::update", [Ref(L), Struct({0: BV(f"(_ bv{v} 64)")})], {L: Struct({0: BV(f"(_ bv{i} 64)")})})]
+        # concrete inputs: exactly one feasible path after constant evaluation by the solver
+        ok_any = False
+        for (m, r) in res:
+            lines = ["(set-logic ALL)", "(declare-const retb Bool)", "(declare-const fin (_ BitVec 64))", f"(assert (= retb {r.t}))", f"(assert (= fin {ex.load(Ref(L, (0,)), m).t}))"]
+            # path conditions are not kept by this shortcut: use the semantics max/compare directly through the solver
+            verdict, model, dt, raw = M.solve(lines, want_model_vars=["retb", "fin"])
+            exp_ret, exp_fin = nat[("plain_update", i, v)]
+            if verdict == "sat" and model.get("retb") == exp_ret and int(model.get("fin", "#x0")[2:], 16) == exp_fin:
+                ok_any = True
+        n += 1
+        if not ok_any:
+            mism.append({"op": "ReloadId::update", "init": i, "v": v})
+    r = {"query": "E2:translator_validation", "engine": "E2-mir2smt", "wall_s": round(time.time() - t0, 2),
+         "bounds": f"{n} (operation, init, id) vectors incl. 0, 1, usize::MAX: encoder vs natively compiled function",
+         "outcome": "pass" if not mism else "inconclusive", "evaluations": n, "distinct_nontrivial": n - len(mism),
+         "programs": n, "disagreements_checked": len(mism)}
+    if mism:
+        r["why"] = "the MIR encoder disagrees with the native function on: " + json.dumps(mism[:3])
+    log(f"[E2] translator validation: {n} vectors, {len(mism)} disagreements")
+    return [r]
+
+
+def confirm_natively(prop, results, log):
+    """E2 counterexamples are schedules; before they are reported the real build is stressed natively."""
+    bad = [r for r in results if r.get("outcome") == "fail"]
+    if not bad or prop not in ("C18", "C16"):
+        return
+    binname = "e2_c18_stress" if prop == "C18" else "e2_c16_stress"
+    try:
+        rc, out = native(binname, [], timeout=900)
+    except Exception as e:  # noqa
+        rc, out = -1, repr(e)
+    rep = "E2-REPRODUCED" in out
+    log(f"[E2] native stress {binname}: {'reproduced' if rep else 'NOT reproduced'} :: {out.strip().splitlines()[-2:] if out.strip() else ''}")
+    for r in bad:
+        r["native_replay"] = {"bin": binname, "reproduced": rep, "tail": out[-400:]}
+        if not rep:
+            r["outcome"] = "inconclusive"
+            r["why"] = "solver counterexample (schedule in counterexample.json) did not reproduce under native stress: " + r.get("why", "")
+
+
+# ------------------------------------------------------------------------------------------------
 def run(prop, ctx, log):
     """entry point used by the runner; returns list of result dicts"""
     scratch = os.path.join(os.environ.get("VERIF_SCRATCH", "/var/tmp/verif-scratch"), f"e2-{prop}-{os.getpid()}")
@@ -285,6 +396,7 @@ def run(prop, ctx, log):
         out = []
         if prop == "C18":
             out += c18_queries(fns, 2, log)
+            out += validate_translator(fns, log)
             if thorough:
                 out += c18_queries(fns, 3, log)
         elif prop == "C06":
@@ -297,6 +409,7 @@ def run(prop, ctx, log):
             if thorough:
                 out += c16_queries(fns, 3, False, log)
                 out += c16_queries(fns, 3, True, log)
+        confirm_natively(prop, out, log)
         return out
     except Unsupported as e:
         return [{"query": f"{prop}:encoder", "engine": "E2-mir2smt", "outcome": "inconclusive", "why": "encoder: " + str(e), "wall_s": round(time.time() - t0, 2), "evaluations": 0, "distinct_nontrivial": 0}]
